@@ -129,6 +129,16 @@ pub fn check_term(r: &R, t: &Term) -> Result<(), String> {
     if !count_ok {
         return Err(format!("capacity class {:?} but {} components", t.get_capacity(), n));
     }
+    // the class's own component count ("atoms and unary one, binary two"; nothing is demanded of the multi classes)
+    let base = t.get_capacity().base_num();
+    let base_ok = match shape {
+        Shape::Atom | Shape::Unary => base == 1,
+        Shape::Pair | Shape::SymPair => base == 2,
+        _ => true,
+    };
+    if !base_ok {
+        return Err(format!("capacity class {:?} reports base_num {} but the term holds {} components", t.get_capacity(), base, n));
+    }
     Ok(())
 }
 
